@@ -19,6 +19,9 @@ TABLE = [
  ("routeacc","RouteCalls",  "RouteMenu",  "GenesisRoute",     '{"eth"}',        "ModsAcceptAll", (1, 3, 1), (1, 3, 2)),
  ("routemix","RouteCalls",  "RouteMenu",  "GenesisRoute",     '{"eth"}',        "ModsMixed",     (1, 3, 1), (1, 3, 2)),
  ("routefail","RouteCalls", "RouteMenu",  "GenesisRoute",     '{"eth"}',        "Mods0",         (1, 3, 1), (1, 3, 2)),
+ ("stockacc","RouteCalls",  "RouteMenu",  "GenesisRoute",     '{"eth"}',        "ModsAcceptAll", (1, 3, 1), (1, 3, 2)),
+ ("stockmix","RouteCalls",  "RouteMenu",  "GenesisRoute",     '{"eth"}',        "ModsMixed",     (1, 3, 1), (1, 3, 2)),
+ ("stockfail","RouteCalls", "RouteMenu",  "GenesisRoute",     '{"eth"}',        "Mods0",         (1, 3, 1), (1, 3, 2)),
  ("stake",   "StakeCalls",  "StakeMenu",  "GenesisStake", '{"eth"}',        "ModsStake",     (3, 3, 1), (4, 3, 2)),
 ]
 for name, calls, menu, gen, den, mods, q, t in TABLE:
@@ -30,6 +33,7 @@ CONSTANTS
   Denoms = {den}
   Mods <- {mods}
   AddrMode = "{addrmode}"
+  Stock = {"TRUE" if name.startswith("stock") else "FALSE"}
   MaxTx = {maxtx}
   Fuel = {fuel}
   Level = {level}
